@@ -12,7 +12,7 @@ for sid in ids:
     if a.returncode != 0:
         rows.append((sid, pid, "patch does not apply", "")); continue
     try:
-        r = subprocess.run([ROOT + "/check", pid], stdout=subprocess.PIPE, stderr=subprocess.STDOUT, text=True, env=dict(os.environ, VERIF_NOCACHE="1"))
+        r = subprocess.run([ROOT + "/check", pid], stdout=subprocess.PIPE, stderr=subprocess.STDOUT, text=True)
     finally:
         subprocess.run(f"git -C {REPO} checkout -- .", shell=True)
     out = r.stdout
